@@ -19,6 +19,8 @@ namespace AGH.C12
 
 inductive Op where
   | login (req : Req) (good : Bool) (user : Nat)
+  /-- a request carrying HTTP Basic credentials instead of a session cookie -/
+  | basic (req : Req) (good : Bool)
   | request (tok : Nat)
   | logout (tok : Nat)
   | restart
@@ -30,9 +32,11 @@ inductive Obs where
   | done
   deriving DecidableEq, Repr
 
-/-- The model's reaction to one operation at time `now` (ns). -/
+/-- The model's reaction to one operation at time `now` (ns): the tree with the
+Basic-auth repair, without the horizon repair, sessions.db writable. -/
 def step (st : St) (now : Nat) : Op → Obs × St
   | .login req good user => let r := handleLogin st now req good user; (.login r.1, r.2)
+  | .basic req good => let r := basicAuthX true st now req good; (.login r.1, r.2)
   | .request tok => let r := checkSession st now tok; (.auth (r.1 == .ok), r.2)
   | .logout tok => (.done, logout st tok)
   | .restart => (.done, restart st now)
@@ -100,6 +104,17 @@ def specStep (sp : Spec) (now : Nat) : Op → Obs → Bool × Spec
       (!rej && good && tok == sp.issued,
        { sp with fails := sp.fails.set addr [],
                  toks := sp.toks.set tok ⟨nowS now, nowS now, false⟩, issued := sp.issued + 1 })
+    | .passed => (false, { sp with fails := sp.fails.set addr [] })
+  | .basic req good, .login r =>
+    -- HTTP Basic credentials are a login attempt from the same address
+    let addr := attemptAddr req
+    let rej := mustReject sp addr now
+    let fs := counted sp addr now
+    match r with
+    | .tooMany _ => (rej, sp)
+    | .forbidden => (!rej && !good, { sp with fails := sp.fails.set addr (fs ++ [now]) })
+    | .passed => (!rej && good, { sp with fails := sp.fails.set addr [] })
+    | .ok _ => (false, { sp with fails := sp.fails.set addr [] })
   | .request tok, .auth b =>
     match sp.toks tok with
     | none => (!b, sp)
@@ -135,13 +150,16 @@ def specOK (sp : Spec) (now : Nat) (op : Op) (obs : Obs) : Bool :=
 /-- The model with fallible sessions.db writes. -/
 def stepF (st : St) (now : Nat) (dbOK : Bool) : Op → Obs × St
   | .login req good user => let r := handleLoginF st now req good user dbOK; (.login r.1, r.2)
+  | .basic req good => let r := basicAuthX true st now req good; (.login r.1, r.2)
   | .request tok => let r := checkSessionF st now tok dbOK; (.auth (r.1 == .ok), r.2)
   | .logout tok => (.done, logoutF st tok dbOK)
   | .restart => (.done, restart st now)
 
-/-- The model at a code level (`fix`: the horizon repair) with fallible writes. -/
-def stepFX (fix : Bool) (st : St) (now : Nat) (dbOK : Bool) : Op → Obs × St
+/-- The model at a code level (`fix`: the horizon repair, `fixB`: the Basic-auth
+repair) with fallible writes. -/
+def stepFX (fix : Bool) (fixB : Bool) (st : St) (now : Nat) (dbOK : Bool) : Op → Obs × St
   | .login req good user => let r := handleLoginF st now req good user dbOK; (.login r.1, r.2)
+  | .basic req good => let r := basicAuthX fixB st now req good; (.login r.1, r.2)
   | .request tok => let r := checkSessionFX fix st now tok dbOK; (.auth (r.1 == .ok), r.2)
   | .logout tok => (.done, logoutF st tok dbOK)
   | .restart => (.done, restartX fix st now)
